@@ -231,6 +231,9 @@ def main(argv=None) -> int:
             for s in j['samples']:
                 if len(merged.samples) < 8:
                     merged.samples.append(s)
+            if not j['samples'] and j['cases']:
+                print(f'note: a shard returned no samples '
+                      f'(cases={j["cases"]}, nontrivial={len(j["nontrivial"])})')
             merged.excluded += j['excluded']
             merged.budget_exhausted |= j['budget_exhausted']
             for k, v in j['extra'].items():
